@@ -88,7 +88,10 @@ class Block1Spool:
         if req.opt.block1.more:
             raise ContinueException(req.opt.block1)
         else:
-            return self._assemblies[block_key]
+            # The completed request is handed over to the caller and leaves the
+            # spool: whatever arrives later must not be appended to (and thereby
+            # alter) a message a request handler is working on.
+            return self._assemblies.pop(block_key)
             # which happens to carry the last block's block1 option
 
 
